@@ -192,6 +192,199 @@ theorem C20_empty_result_only_with_ctx_error (e : Env) (o : Oracle) (hv : Oracle
           simp at this
         · intro herr; exact herr
 
+/-! ## timing: "waiting at most the settle time to gather further ones" -/
+
+private theorem minList_le (l : List Nat) (m : Nat) (h : minList l = some m) : ∀ x ∈ l, m ≤ x := by
+  induction l generalizing m with
+  | nil => simp [minList] at h
+  | cons a as ih =>
+    unfold minList at h
+    split at h
+    · rename_i m' hm'
+      simp only [Option.some.injEq] at h
+      intro x hx
+      simp only [List.mem_cons] at hx
+      rcases hx with rfl | hx
+      · omega
+      · have := ih m' hm' x hx; omega
+    · rename_i hnone
+      simp only [Option.some.injEq] at h
+      intro x hx
+      simp only [List.mem_cons] at hx
+      rcases hx with rfl | hx
+      · omega
+      · cases as with
+        | nil => simp at hx
+        | cons b bs => unfold minList at hnone; split at hnone <;> simp at hnone
+
+/-- a select with a deadline `D` wakes no later than `max t D` -/
+private theorem select_le_deadline (e : Env) (o : Oracle) (chans : List Nat) (D t u : Nat) (p : Pick)
+    (h : select e o chans (some D) t = some (u, p)) : u ≤ max t D := by
+  unfold select at h
+  split at h
+  · simp at h
+  · rename_i w hw
+    simp only [Option.some.injEq, Prod.mk.injEq] at h
+    obtain ⟨rfl, _⟩ := h
+    unfold wakeTime at hw
+    have hle := minList_le _ _ hw
+    by_cases hD : D ≤ t
+    · -- the deadline has passed: `t` itself is a ready instant
+      have : t ∈ (eventTimes e chans (some D) t).filter fun u => doneBy (some D) u || chans.any (e.closedBy · u) := by
+        simp only [List.mem_filter, eventTimes, List.mem_cons, true_or, true_and, doneBy]
+        simp [hD]
+      have := hle t this; omega
+    · have hD' : t < D := by omega
+      have : D ∈ (eventTimes e chans (some D) t).filter fun u => doneBy (some D) u || chans.any (e.closedBy · u) := by
+        simp only [List.mem_filter, eventTimes, List.mem_cons, List.mem_filter, List.mem_append, Option.toList,
+          List.mem_singleton, doneBy]
+        exact ⟨Or.inr ⟨by simp, by simpa using hD'⟩, by simp⟩
+      have := hle D this; omega
+
+private theorem settleLoop_time_le (e : Env) (o : Oracle) (D B : Nat) (hD : D ≤ B) :
+    ∀ (fuel : Nat) (cases : List Nat) (t : Nat) (acc : List Nat), t ≤ B →
+      (settleLoop e o (some D) fuel cases t acc).2 ≤ B := by
+  intro fuel
+  induction fuel with
+  | zero => intro cases t acc ht; exact ht
+  | succ n ih =>
+    intro cases t acc ht
+    simp only [settleLoop]
+    split
+    · exact ht
+    · rename_i u hs
+      have := select_le_deadline e o cases D t u .done hs; simp only; omega
+    · rename_i u c hs
+      have := select_le_deadline e o cases D t u (.chan c) hs
+      exact ih _ u _ (by omega)
+
+private theorem select_ge (e : Env) (o : Oracle) (chans : List Nat) (d : Option Nat) (t u : Nat) (p : Pick)
+    (h : select e o chans d t = some (u, p)) : t ≤ u := by
+  unfold select at h
+  split at h
+  · simp at h
+  · rename_i w hw
+    simp only [Option.some.injEq, Prod.mk.injEq] at h
+    obtain ⟨rfl, _⟩ := h
+    have hmem := minList_mem _ _ hw
+    simp only [wakeTime, List.mem_filter] at hmem
+    have := hmem.1
+    unfold eventTimes at this
+    simp only [List.mem_cons, List.mem_filter] at this
+    rcases this with h | h
+    · omega
+    · have := h.2; simp at this; omega
+
+private theorem settleLoop_time_ge (e : Env) (o : Oracle) (d : Option Nat) :
+    ∀ (fuel : Nat) (cases : List Nat) (t : Nat) (acc : List Nat), t ≤ (settleLoop e o d fuel cases t acc).2 := by
+  intro fuel
+  induction fuel with
+  | zero => intro cases t acc; exact Nat.le_refl _
+  | succ n ih =>
+    intro cases t acc
+    simp only [settleLoop]
+    split
+    · exact Nat.le_refl _
+    · rename_i u hs; exact select_ge e o cases d t u .done hs
+    · rename_i u c hs
+      have h1 := select_ge e o cases d t u (.chan c) hs
+      have h2 := ih (cases.filter (· ≠ c)) u (acc ++ [c])
+      omega
+
+private theorem minOpt_le (a : Option Nat) (b : Nat) : minOpt a b ≤ b := by
+  unfold minOpt; split <;> omega
+
+private theorem select_wake (e : Env) (o : Oracle) (chans : List Nat) (d : Option Nat) (t u : Nat) (p : Pick)
+    (h : select e o chans d t = some (u, p)) : wakeTime e chans d t = some u := by
+  unfold select at h
+  split at h
+  · simp at h
+  · rename_i w hw
+    simp only [Option.some.injEq, Prod.mk.injEq] at h
+    rw [hw, h.1]
+
+/-- **waits at most the settle time**: if `Wait` gathers members, it returns no
+    later than `settle` after the instant `u` of its first wake-up, and `u` is
+    the first instant at or after the call at which a member is closed or the
+    context has ended (`wakeTime`: the minimum of the ready instants ≥ t0) -/
+theorem C20_returns_within_settle (e : Env) (o : Oracle) (set : List Nat) (settle t0 : Nat)
+    (res : Result) (h : wait e o set settle t0 = some res) (hne : res.returned ≠ []) :
+    ∃ u, wakeTime e set e.ctxAt t0 = some u ∧ u ≤ res.time ∧ res.time ≤ u + settle := by
+  unfold wait at h
+  split at h
+  · split at h
+    · simp only [Option.some.injEq] at h; subst h; simp at hne
+    · simp at h
+  · split at h
+    · simp at h
+    · simp only [Option.some.injEq] at h; subst h; simp at hne
+    · rename_i u c hs
+      refine ⟨u, select_wake e o set e.ctxAt t0 u (.chan c) hs, ?_⟩
+      split at h
+      · simp only [Option.some.injEq] at h; subst h; simp
+      · simp only [Option.some.injEq] at h; subst h
+        exact ⟨settleLoop_time_ge e o _ _ _ u _,
+          settleLoop_time_le e o _ (u + settle) (minOpt_le _ _) _ _ u _ (Nat.le_add_right _ _)⟩
+
+/-- the first wake-up is at or after the call, at an instant with a ready case -/
+theorem C20_first_wake_is_ready_instant (e : Env) (set : List Nat) (t0 u : Nat)
+    (h : wakeTime e set e.ctxAt t0 = some u) :
+    t0 ≤ u ∧ (doneBy e.ctxAt u = true ∨ set.any (e.closedBy · u) = true) := by
+  unfold wakeTime at h
+  have hmem := minList_mem _ _ h
+  simp only [List.mem_filter] at hmem
+  refine ⟨?_, by simpa using hmem.2⟩
+  have := hmem.1
+  unfold eventTimes at this
+  simp only [List.mem_cons, List.mem_filter] at this
+  rcases this with h | h
+  · omega
+  · have := h.2; simp at this; omega
+
+/-- … and it is the EARLIEST such instant: at no instant in `[t0, u)` is the context
+    done or a member closed — `Wait` does not return a result while no member is closed -/
+theorem C20_nothing_ready_before_first_wake (e : Env) (set : List Nat) (t0 u : Nat)
+    (h : wakeTime e set e.ctxAt t0 = some u) (t' : Nat) (h0 : t0 ≤ t') (h1 : t' < u) :
+    doneBy e.ctxAt t' = false ∧ set.any (e.closedBy · t') = false := by
+  unfold wakeTime at h
+  have hle := minList_le _ _ h
+  -- any ready instant `x ≤ t'` among the candidates would give `u ≤ x`
+  have key : ∀ x, x ∈ eventTimes e set e.ctxAt t0 →
+      (doneBy e.ctxAt x || set.any (e.closedBy · x)) = true → x ≤ t' → False := by
+    intro x hx hr hxt
+    have := hle x (by simp only [List.mem_filter]; exact ⟨hx, hr⟩)
+    omega
+  constructor
+  · cases hd : doneBy e.ctxAt t' with
+    | false => rfl
+    | true =>
+      exfalso
+      unfold doneBy at hd
+      split at hd
+      · rename_i td htd
+        have htd' : td ≤ t' := by simpa using hd
+        by_cases hc : td ≤ t0
+        · exact key t0 (by simp [eventTimes]) (by simp [doneBy, htd, hc]) h0
+        · exact key td (by simp [eventTimes, htd]; omega) (by simp [doneBy, htd]) htd'
+      · simp at hd
+  · cases ha : set.any (e.closedBy · t') with
+    | false => rfl
+    | true =>
+      exfalso
+      simp only [List.any_eq_true] at ha
+      obtain ⟨c, hc, hcl⟩ := ha
+      unfold Env.closedBy at hcl
+      split at hcl
+      · rename_i tc htc
+        have htc' : tc ≤ t' := by simpa using hcl
+        by_cases hcc : tc ≤ t0
+        · exact key t0 (by simp [eventTimes])
+            (by simp only [Bool.or_eq_true, List.any_eq_true]; exact Or.inr ⟨c, hc, by simp [Env.closedBy, htc, hcc]⟩) h0
+        · exact key tc (by simp only [eventTimes, List.mem_cons, List.mem_filter, List.mem_append, List.mem_filterMap]
+                           exact Or.inr ⟨Or.inl ⟨c, hc, htc⟩, by simp; omega⟩)
+            (by simp only [Bool.or_eq_true, List.any_eq_true]; exact Or.inr ⟨c, hc, by simp [Env.closedBy, htc]⟩) htc'
+      · simp at hcl
+
 /-! ## non-vacuity: a concrete run (two members closing at 5 and 30, settle 50,
     a third member never closing) -/
 example :
